@@ -542,6 +542,8 @@ pub fn c05(em: &mut Emit, thorough: bool, seed: u64) {
 
 pub fn c13(em: &mut Emit, thorough: bool, seed: u64) {
     let mut rng = Rng::new(seed ^ 0xC13);
+    // multipart bodies whose exact length is around 2^64 (the checked arithmetic / 413 path)
+    crate::suites_body::c06_huge(em, &mut rng, if thorough { 10_000 } else { 800 });
     // malformed validators: not well-formed, so only model agreement and no panic
     let n = if thorough { 50_000 } else { 3_000 };
     for _ in 0..n {
